@@ -29,6 +29,14 @@ C_UT = 4.0       # moments
 # ------------------------------------------------------------------------------------------------ replay registry
 
 REG = {}   # input line -> (stage, JSON-able snapshot of the case description), filled when the cases are created
+HCACHE = {}   # input line -> harness output, filled by one interleaved run of all stages' cases in a single process
+
+
+def run_h(binary, lines):
+    """outputs of the harness for `lines`: from the interleaved run when available"""
+    if lines and all(l in HCACHE for l in lines):
+        return [HCACHE[l] for l in lines], {}
+    return vlib.run_harness(binary, lines)
 
 
 def snap(meta):
@@ -131,9 +139,13 @@ def weight_tols(n, a, b, k):
     return ([C_W * t_wm0] + [C_W * t_wj] * (2 * n), [C_W * t_wc0] + [C_W * t_wj] * (2 * n), C_W * dc)
 
 
-def rnd_params(g, n):
+def rnd_params(g, n, tiny=True):
+    """alpha in [0.1, 2] (the property's range) and, unless tiny=False, now and then a much smaller alpha
+    (1e-3, 1e-2: n + lambda = alpha^2 (n + kappa) is still positive, the central weight is of order -1e6)"""
     r = g.r
-    alpha = r.choice([0.1, 0.1, 0.5, 1.0, 2.0, 1e-3 ** 0.5 if False else 0.25, r.uniform(0.1, 2.0), r.uniform(0.1, 2.0), r.uniform(0.1, 0.3)])
+    alpha = r.choice([0.1, 0.1, 0.5, 1.0, 2.0, 0.25, r.uniform(0.1, 2.0), r.uniform(0.1, 2.0), r.uniform(0.1, 0.3)])
+    if tiny and r.random() < 0.06:
+        alpha = r.choice([1e-3, 1e-2, 0.03])
     beta = r.choice([0.0, 2.0, 2.0, r.uniform(0.0, 4.0)])
     kappa = r.choice([0.0, 0.0, 1.0, max(0.0, 3.0 - n), r.uniform(0.0, 5.0)])
     return alpha, beta, kappa
@@ -212,7 +224,7 @@ def weights_stage(ctx, binary, stats, hist, only=None):
             lin, circ, noise, quat = n
             lines.append("utwd %d %d %d %d %s %s %s" % (lin, circ, noise, 1 if quat else 0, hexd(a), hexd(b), hexd(k)))
     register("weights", [(l, {"case": list(c[:5])}) for l, c in zip(lines, cases)])
-    hout, logs = vlib.run_harness(binary, lines)
+    hout, logs = run_h(binary, lines)
     dout = vlib.run_driver(lines)
     prop_bad, corr_bad = [], []
     for (op, nn, a, b, k, _), line, h, d in zip(cases, lines, hout, dout):
@@ -288,9 +300,10 @@ def recover_factor(X, mean, n, comp):
     return B, asym, centre
 
 
-def check_points_linear(X, means, covs, c, n, k, stats, what):
+def check_points_linear(X, means, covs, c, n, k, stats, what, dc=0.0):
     """Predicates on the sigma points of a linear (+noise) layout: first column = mean, +/- symmetry,
-    B B^T = c P.  X, means, covs exact (Fractions).  Returns (problems, factors)."""
+    B B^T = c P.  X, means, covs exact (Fractions); dc: error bound of the c the implementation used (its
+    n + lambda suffers cancellation for small alpha).  Returns (problems, factors)."""
     probs, Bs = [], []
     for i in range(k):
         m = means[i]
@@ -314,7 +327,7 @@ def check_points_linear(X, means, covs, c, n, k, stats, what):
         cf = float(c)
         res = max([abs(float(BBt[a][b] - c * P[a][b])) for a in range(n) for b in range(n)] + [0.0])
         # the columns themselves are rounded (X = fl(m + B)): the recovered factor carries eps (|m| + |B|) per entry
-        tol = C_SQRT * n * EPS * abs(cf) * pn + 16 * n * EPS * bscale * (mscale + bscale) + 1e-300
+        tol = C_SQRT * n * EPS * abs(cf) * pn + 16 * n * EPS * bscale * (mscale + bscale) + dc * pn + 1e-300
         stats["sp_contract"] = max(stats.get("sp_contract", 0.0), res / tol)
         if res > tol:
             probs.append(("sqrt-contract", "%s component %d: B B^T differs from c P by %.3g (tolerance %.3g, c = %.6g, ||P|| = %.3g): the columns are not a square root of c P" % (what, i, res, tol, cf, pn)))
@@ -354,7 +367,7 @@ def points_stage(ctx, binary, stats, hist, only=None):
     cases = [sp_case(g, ctx.tier) for _ in range(N)] if only is None else only
     register("points", cases)
     lines = [c[0] for c in cases]
-    hout, logs = vlib.run_harness(binary, lines)
+    hout, logs = run_h(binary, lines)
     # model of augmentWithNoise, applied once per augmentation
     aug_lines, aug_idx = [], []
     for ci, (line, meta) in enumerate(cases):
@@ -423,7 +436,7 @@ def points_stage(ctx, binary, stats, hist, only=None):
         for key2, what in probs:
             prop_bad.append((key2, what, line, h))
     # the guard of augmentWithNoise (non-square matrix refused): outside the property's quantifier, counted only
-    if only is None:
+    if not ctx.replay:
         gl = []
         for _ in range(ctx.n(8, 60)):
             lin, k = g.r.randint(1, 3), g.r.randint(1, 3)
@@ -636,7 +649,7 @@ def check_ut_case(line, meta, h, stats, notes):
     means = [[Fraction(v) for v in meta["means"][i]] + [F0] * nz for i in range(k)]
     covs = [blockdiag(meta["Ps"][i], meta["Qin"] if nz else []) for i in range(k)]
     _, _, c = weights_frac(n, meta["alpha"], meta["beta"], meta["kappa"])
-    pp, Bs = check_points_linear(o["X"], means, covs, c, n, k, stats, "ut/" + meta["mode"])
+    pp, Bs = check_points_linear(o["X"], means, covs, c, n, k, stats, "ut/" + meta["mode"], weight_tols(n, meta["alpha"], meta["beta"], meta["kappa"])[2])
     for key2, what in pp:
         probs.append(("prop", key2, what))
     return probs, o, Bs
@@ -763,7 +776,7 @@ def transform_stage(ctx, binary, stats, hist, notes, only=None):
     cases = [ut_case(g, ctx.tier, i) for i in range(N)] if only is None else only
     register("transform", cases)
     lines = [c[0] for c in cases]
-    hout, logs = vlib.run_harness(binary, lines)
+    hout, logs = run_h(binary, lines)
     prop_bad, corr_bad = [], []
     first = []
     dl, didx = [], []
@@ -921,7 +934,7 @@ def circ_case(g, tier):
         linO = 1
     li = Lay(linI, circI, quat, nz)
     lo = Lay(linO, circO, quat, 0)
-    alpha, beta, kappa = rnd_params(g, li.dof)
+    alpha, beta, kappa = rnd_params(g, li.dof, tiny=False)   # tiny alpha would put the spreads into the 1e-4 cut-off band
     c = float(Fraction(alpha) ** 2 * (li.dof + Fraction(kappa)))
     dof0 = li.dof - nz
     lam = 0.3 / max(c, 1.0)
@@ -1302,7 +1315,7 @@ def circ_stage_impl(ctx, binary, stats, hist, notes, only=None):
     cases = [circ_case(g, ctx.tier) for _ in range(N)] if only is None else only
     register("circular", cases)
     lines = [c[0] for c in cases]
-    hout, logs = vlib.run_harness(binary, lines)
+    hout, logs = run_h(binary, lines)
     prop_bad, corr_bad = [], []
     first, dl, dmap = [], [], {}
     for ci, ((line, meta), h) in enumerate(zip(cases, hout)):
@@ -1370,11 +1383,27 @@ def run(ctx):
             return []
         return [(rp["input_line"], unsnap(rp["meta"]))]
 
+    pre = {"points": sel("points"), "transform": sel("transform"), "circular": sel("circular")}
+    inter_crash = 0
+    if rp is None:
+        # all sigma-point / transform cases of all layouts go through ONE harness process, interleaved (dimensions,
+        # layouts, component counts and parameters change non-monotonically from call to call: state surviving
+        # between calls inside the library — caches, workspaces that only grow — would show)
+        gp, gt, gc = ctx.gen("points"), ctx.gen("transform"), ctx.gen("circular")
+        pre["points"] = [sp_case(gp, ctx.tier) for _ in range(ctx.n(70, 2500))]
+        pre["transform"] = [ut_case(gt, ctx.tier, i) for i in range(ctx.n(150, 5000))]
+        pre["circular"] = [circ_case(gc, ctx.tier) for _ in range(ctx.n(90, 3000))]
+        allc = [l for st_ in ("points", "transform", "circular") for (l, _m) in pre[st_]]
+        ctx.gen("interleave").r.shuffle(allc)
+        outs, ilogs = vlib.run_harness(binary, allc)
+        HCACHE.update(zip(allc, outs))
+        inter_crash = len(ilogs)
     nw, wlines, w_prop, w_corr, w_crash = weights_stage(ctx, binary, stats, hist, sel("weights"))
-    npnt, plines, p_prop, p_corr, p_crash = points_stage(ctx, binary, stats, hist, sel("points"))
-    cases, tlines, t_prop, t_corr, t_crash = transform_stage(ctx, binary, stats, hist, notes, sel("transform"))
+    npnt, plines, p_prop, p_corr, p_crash = points_stage(ctx, binary, stats, hist, pre["points"])
+    cases, tlines, t_prop, t_corr, t_crash = transform_stage(ctx, binary, stats, hist, notes, pre["transform"])
     nex, ex_bad = exact_instances(ctx, stats, hist) if rp is None else (0, [])
-    ncirc, clines, c_prop, c_corr = circ_stage(ctx, binary, stats, hist, notes, sel("circular"))
+    ncirc, clines, c_prop, c_corr = circ_stage(ctx, binary, stats, hist, notes, pre["circular"])
+    w_crash += inter_crash
     prop_bad = w_prop + p_prop + t_prop + c_prop
     corr_bad = w_corr + p_corr + t_corr + c_corr + [(k2, w, l, "") for (k2, w, l) in ex_bad]
 
@@ -1435,6 +1464,7 @@ def run(ctx):
                 "sigma points: random mixtures (linear 1..5, 0..2 appended noise blocks, 1..4 distinct components, PSD incl. singular/zero); "
                 "transform: generic overload and the four model overloads with harness-defined affine models (dims 1..5, noise rows 0..3, "
                 "components 1..4, non-symmetric / rank-deficient / zero A, failing evaluations); exact instances: model only, dyadic factor; "
+                "all sigma-point and transform cases of all layouts run interleaved (shuffled) in one harness process; alpha occasionally 1e-3 / 1e-2; "
                 "non-trivial = more than one input dimension or more than one component (weights cases are not counted); distinct = distinct input lines",
         "samples": [l[:400] for l in (wlines[:1] + plines[:1] + tlines[:1] + tlines[-1:] + clines[:1])],
         "branch_histogram": hist, "code_branches_hit": branches,
